@@ -258,4 +258,162 @@ class CompositeMoveTo(FnContract):
         P.check(qn + "/ensures:memoised-masks-of-all-selection-classes-invalidated", any(e[0] == 'clear-all' for e in ev))
 
 
-CONTRACTS = [ClearCache(), ClearAll(), ClearAllInSubsetModule(), UpdateComponents(), CompositeMoveTo()]
+
+class StateSetAttr(FnContract):
+    """every attribute of a selection that to_mask reads is an instance attribute: re-assigning one must invalidate the memoised masks"""
+    property_ids = ('C05',)
+    target = "glue/core/subset.py:SubsetState.__setattr__"
+    title = ("the value is stored; when the attribute existed before, every memoised mask is invalidated - unless old and new value are immutable plain values that are honestly "
+             "equal; a comparison that is not an honest boolean (an attribute identifier against a number builds a selection; the very object edited in place equals itself; "
+             "arrays refuse to be a truth value) never excuses the invalidation; the first assignment of an attribute (construction) invalidates nothing")
+
+    KINDS = ('new-attribute', 'number-other', 'number-equal', 'identifier-for-number', 'same-object-edited-in-place', 'array')
+
+    def configs(self, tier):
+        return [dict(kind=k) for k in self.KINDS]
+
+    def inputs(self, cfg, P):
+        kind = cfg['kind']
+        st = St(cleared=[], kind=kind)
+        eq_number = z3.Bool('numbers_equal')
+
+        def val(tag):
+            v = PObj('value', fields={'tag': tag})
+
+            def eq(I, a, b):
+                if kind in ('number-other', 'number-equal'):
+                    return kind == 'number-equal'
+                if kind == 'identifier-for-number':
+                    return PObj('InequalitySubsetState', methods={'__bool__': lambda I2, s_: True})     # ComponentID.__eq__(number): a selection, truthy
+                if kind == 'same-object-edited-in-place':
+                    return True
+                if kind == 'array':
+                    raise PyRaise(ExcVal('ValueError', ('The truth value of an array with more than one element is ambiguous',)))
+                return False
+            v.methods['__eq__'] = eq
+            v.methods['__ne__'] = lambda I, a, b: (kind == 'number-other') if kind in ('number-other', 'number-equal') else (
+                PObj('InequalitySubsetState', methods={'__bool__': lambda I2, s_: True}) if kind == 'identifier-for-number' else
+                (False if kind == 'same-object-edited-in-place' else eq(I, a, b)))
+            return v
+        old = val('old')
+        new = old if kind == 'same-object-edited-in-place' else val('new')
+        d = {} if kind == 'new-attribute' else {'lo': old}
+        state = PObj('SubsetState', fields={'__dict__': d})
+        st.state, st.old, st.new, st.d = state, old, new, d
+        return Inputs([state, 'lo', new], st=st)
+
+    def globals_(self, cfg, st):
+        def obj_setattr(I, cls_, obj, name, value):
+            obj.fields['__dict__'][name] = value
+        obj = PObj('class-object', fields={'name': 'object'}, methods={'__setattr__': obj_setattr})
+        return {'_clear_mask_caches': Builtin('_clear_mask_caches', lambda I: st.cleared.append(len(st.d) and st.d.get('lo'))),
+                'object': obj, 'numpy.array_equal': Builtin('np.array_equal', lambda I, a, b: True if st.kind in ('array', 'same-object-edited-in-place', 'number-equal') else False),
+                'numpy.any': Builtin('np.any', lambda I, a: bool(a) if isinstance(a, bool) else True), 'numpy.all': Builtin('np.all', lambda I, a: bool(a) if isinstance(a, bool) else True)}
+
+    def finish(self, cfg, st, P, outcome):
+        qn = "SubsetState.__setattr__[%s]" % self.cfg_name(cfg)
+        P.check(qn + "/does-not-raise", outcome[0] == 'return')
+        P.check(qn + "/ensures:value-stored", st.d.get('lo') is st.new)
+        k = cfg['kind']
+        if k == 'new-attribute':
+            P.check(qn + "/ensures:construction-invalidates-nothing", not st.cleared)
+        elif k == 'number-equal':
+            pass        # clearing or not clearing are both fine
+        else:
+            P.check(qn + "/ensures:memoised-masks-invalidated-after-the-value-is-stored", len(st.cleared) >= 1 and st.cleared[-1] is st.new)
+
+
+
+class UpdateValuesFromData(FnContract):
+    """the refresh of a dataset from another one announces removed and added attributes on the way (listeners may evaluate - and thereby
+    memoise - selections inside those notifications, on values that are about to be replaced): the invalidation has to come after the
+    last change"""
+    property_ids = ('C05', 'C17')
+    target = "glue/core/data.py:Data.update_values_from_data"
+    title = ("attributes missing from the new data are removed, common ones get the new values, new ones are added, shape, label and coordinates are taken over; the memoised "
+             "masks are invalidated after the last of these changes and before listeners are told that the values changed (once, iff there is a hub); "
+             "non-unique names on either side are refused with nothing changed")
+
+    def configs(self, tier):
+        return [dict(old=o, new=n, hub=h) for o, n in (('abc', 'abc'), ('abc', 'ab'), ('ab', 'abd'), ('abc', 'bde'), ('a', 'a'), ('aab', 'ab'), ('ab', 'abb'))
+                for h in (True, False)]
+
+    def inputs(self, cfg, P):
+        ev = []
+
+        def mk(labels, name):
+            cids = [PObj('ComponentID', fields={'label': l}) for l in labels]
+            comps = {c: PObj('Component', fields={'_data': ('values', name, c.fields['label']), 'owner': name, 'label': c.fields['label']}) for c in cids}
+            d = PObj('Data', fields={'_cids': list(cids), '_comps': comps, '_shape': ('shape', name), '_label': ('label', name), '_coords': ('coords', name), 'name': name})
+            d.methods['components'] = ('__property__', lambda I, s: PList(list(s.fields['_cids'])))
+
+            def by_label(s, l):
+                m = [c for c in s.fields['_cids'] if c.fields['label'] == l]
+                return m[0] if len(m) == 1 else None
+            d.methods['find_component_id'] = lambda I, s, l: by_label(s, l)
+            d.methods['get_component'] = lambda I, s, l: s.fields['_comps'][by_label(s, l) if isinstance(l, str) else l]
+            return d
+        me, other = mk(cfg['old'], 'self'), mk(cfg['new'], 'other')
+        for c, comp in me.fields['_comps'].items():
+            comp.methods['_data.setter'] = (lambda I, s, v: (ev.append(('change', 'values', s.fields['label'])), s.fields.__setitem__('_data', v))[1])
+
+        def remove(I, s, cid):
+            s.fields['_cids'] = [c for c in s.fields['_cids'] if c is not cid]
+            ev.append(('change', 'remove', cid.fields['label'] if cid is not None else None))
+
+        def add(I, s, comp, label):
+            cid = PObj('ComponentID', fields={'label': label})
+            s.fields['_cids'].append(cid)
+            s.fields['_comps'][cid] = comp
+            ev.append(('change', 'add', label))
+            return cid
+        me.methods['remove_component'] = remove
+        me.methods['add_component'] = add
+        me.methods['_shape.setter'] = lambda I, s, v: (ev.append(('change', 'shape', None)), s.fields.__setitem__('_shape', v))[1]
+        me.methods['label'] = ('__property__', lambda I, s: s.fields['_label'])
+        me.methods['label.setter'] = lambda I, s, v: (ev.append(('change', 'label', None)), s.fields.__setitem__('_label', v))[1]
+        me.methods['coords'] = ('__property__', lambda I, s: s.fields['_coords'])
+        me.methods['coords.setter'] = lambda I, s, v: (ev.append(('change', 'coords', None)), s.fields.__setitem__('_coords', v))[1]
+        other.methods['label'] = ('__property__', lambda I, s: s.fields['_label'])
+        other.methods['coords'] = ('__property__', lambda I, s: s.fields['_coords'])
+        hub = None
+        if cfg['hub']:
+            hub = PObj('Hub')
+            hub.methods['broadcast'] = lambda I, s, m: ev.append(('notify', m))
+        me.fields['hub'] = hub
+        st = St(me=me, other=other, ev=ev, cids0=list(me.fields['_cids']), data0={c: comp.fields['_data'] for c, comp in me.fields['_comps'].items()})
+        return Inputs([me, other], st=st)
+
+    def globals_(self, cfg, st):
+        return {'_clear_subset_state_caches': Builtin('_clear', lambda I: st.ev.append(('clear',))),
+                'NumericalDataChangedMessage': Builtin('NumericalDataChangedMessage', lambda I, sender, **k: PObj('NumericalDataChangedMessage', fields={'sender': sender}))}
+
+    raises = {'ValueError': lambda cfg, st: len(set(cfg['old'])) != len(cfg['old']) or len(set(cfg['new'])) != len(cfg['new'])}
+
+    def finish(self, cfg, st, P, outcome):
+        qn = "Data.update_values_from_data[%s]" % self.cfg_name(cfg)
+        ev = st.ev
+        kinds = [e[0] for e in ev]
+        me = st.me
+        if outcome[0] == 'raise':
+            P.check(qn + "/raises:refused-update-changes-nothing", not ev and me.fields['_cids'] == st.cids0)
+            return
+        old, new = cfg['old'], cfg['new']
+        labels = [c.fields['label'] for c in me.fields['_cids']]
+        P.check(qn + "/ensures:attributes-are-those-of-the-new-data(kept-ones-first-in-their-old-order)", labels == [l for l in old if l in new] + [l for l in new if l not in old])
+        kept = [c for c in st.cids0 if c.fields['label'] in new]
+        P.check(qn + "/ensures:identifiers-of-common-attributes-preserved", all(any(c is k for c in me.fields['_cids']) for k in kept))
+        P.check(qn + "/ensures:common-attributes-hold-the-new-values", all(me.fields['_comps'][k].fields['_data'] == ('values', 'other', k.fields['label']) for k in kept))
+        P.check(qn + "/ensures:shape-label-coordinates-taken-over", me.fields['_shape'] == ('shape', 'other') and me.fields['_label'] == ('label', 'other') and me.fields['_coords'] == ('coords', 'other'))
+        changes = [i for i, k in enumerate(kinds) if k == 'change']
+        clears = [i for i, k in enumerate(kinds) if k == 'clear']
+        P.check(qn + "/ensures:memoised-masks-invalidated-after-the-last-change", bool(clears) and (not changes or clears[-1] > changes[-1]))
+        notes = [i for i, k in enumerate(kinds) if k == 'notify']
+        if cfg['hub']:
+            P.check(qn + "/ensures:listeners-told-once-after-the-invalidation", len(notes) == 1 and bool(clears) and notes[0] > clears[-1] and (not changes or notes[0] > changes[-1])
+                    and ev[notes[0]][1].cls == 'NumericalDataChangedMessage' and ev[notes[0]][1].fields['sender'] is me)
+        else:
+            P.check(qn + "/ensures:no-hub-no-notification", not notes)
+
+
+CONTRACTS = [ClearCache(), ClearAll(), ClearAllInSubsetModule(), UpdateComponents(), CompositeMoveTo(), StateSetAttr(), UpdateValuesFromData()]
